@@ -359,6 +359,98 @@ def requestLayout : List (String × Nat × String × String) := {_lean_list(layo
 """
 
 
+# ---- round 6: `add_rule` / `remove_rule` translated statement by statement
+_RULE_FIELDS = {"action": "action", "protocol": "proto", "src_ip_address": "srcIp", "src_wildcard_mask": "srcWc",
+                "dst_ip_address": "dstIp", "dst_wildcard_mask": "dstWc", "src_port": "srcPort", "dst_port": "dstPort"}
+
+
+def _rule_defaults(tree) -> dict:
+    """defaults of the ACLRule fields a constructor call may leave out"""
+    rule = class_def(tree, "ACLRule")
+    out = {}
+    for st in rule.body:
+        if isinstance(st, ast.AnnAssign) and isinstance(st.target, ast.Name) and st.value is not None:
+            out[st.target.id] = _u(st.value)
+    return out
+
+
+def _slot_value(v: ast.AST, defaults: dict) -> str:
+    """right-hand side of `self._acl[position] = …`: `None`, or `ACLRule(field=param, …)` as a Lean `Option Rule` over the
+    bundle `r` of add_rule's parameters (a field the call leaves out takes the class default)"""
+    if _u(v) == "None":
+        return "none"
+    _need(isinstance(v, ast.Call) and _u(v.func) == "ACLRule" and not v.args, "slot value is None or ACLRule(keywords)")
+    given = {}
+    for k in v.keywords:
+        _need(k.arg in _RULE_FIELDS, f"ACLRule keyword {k.arg}")
+        _need(_u(k.value) in _RULE_FIELDS, f"ACLRule({k.arg}={_u(k.value)}): not a parameter of add_rule")
+        given[k.arg] = "r." + _RULE_FIELDS[_u(k.value)]
+    parts = []
+    for f, lf in _RULE_FIELDS.items():
+        if f in given:
+            parts.append(f"{lf} := {given[f]}")
+        else:
+            d = defaults.get(f)
+            _need(d in ("None", "ACLAction.DENY", "ACLAction.PERMIT"), f"default of ACLRule.{f}")
+            parts.append(f"{lf} := " + {"None": "none", "ACLAction.DENY": "Action.deny", "ACLAction.PERMIT": "Action.permit"}[d])
+    _need(defaults.get("match_count") == "0", "ACLRule.match_count default 0")
+    return "(some { " + ", ".join(parts) + ", hits := 0 })"
+
+
+def _slot_stmts(stmts, cur: int, ind: int, defaults: dict) -> str:
+    """Statements of the accepted branch, in order.  Every read or write of `self._acl[position]` goes through Python's list
+    indexing (`pyIndex`: IndexError beyond the slots); an exception leaves the object as it is at that point."""
+    pad = "  " * ind
+    _need(bool(stmts), "accepted branch falls off its end")
+    s, rest = stmts[0], stmts[1:]
+    a = f"a{cur}"
+    if isinstance(s, ast.Return):
+        _need(_u(s) == "return True", f"accepted branch returns {_u(s)}")
+        return f"{pad}({a}, EditOut.ok)"
+    if isinstance(s, ast.Delete):
+        _need(all(isinstance(t, ast.Name) for t in s.targets), "del of a local name")
+        return _slot_stmts(rest, cur, ind, defaults)
+    is_read = ((isinstance(s, ast.Assign) and isinstance(s.targets[0], ast.Name) and _u(s.value) == "self._acl[position]")
+               or (isinstance(s, ast.If) and _u(s.test) == "self._acl[position]" and not s.orelse and len(s.body) == 1
+                   and isinstance(s.body[0], ast.Expr) and _u(s.body[0].value).startswith("self.sys_log.info(")))
+    if is_read:
+        return (f"{pad}match pyIndex {a}.core.rules.length position with  -- {_u(s).splitlines()[0]}\n"
+                f"{pad}| none => ({a}, EditOut.indexError)\n{pad}| some _ =>\n" + _slot_stmts(rest, cur, ind + 1, defaults))
+    if isinstance(s, ast.Assign) and _u(s.targets[0]) == "self._acl[position]":
+        v = _slot_value(s.value, defaults)
+        b = f"a{cur + 1}"
+        return (f"{pad}match pyIndex {a}.core.rules.length position with  -- self._acl[position] = …\n"
+                f"{pad}| none => ({a}, EditOut.indexError)\n{pad}| some k_ =>\n"
+                f"{pad}  let {b} : AclObj := {{ {a} with core := {{ {a}.core with rules := {a}.core.rules.set k_ {v} }} }}\n"
+                + _slot_stmts(rest, cur + 1, ind + 1, defaults))
+    raise Shape(f"statement in the accepted branch: {_u(s)[:70]!r}")
+
+
+def _edit_method_lean(acl: ast.ClassDef, tree, name: str, lean_name: str, params: str) -> str:
+    from harness.extract.pyexpr import expr
+    fn = find_method(acl, name)
+    b = _body(fn)
+    _need(len(b) == 2 and isinstance(b[0], ast.If) and _u(b[1]) == "return False", f"{name}: if <guard>: … else: raise …; return False")
+    g = b[0]
+    _need(len(g.orelse) == 1 and isinstance(g.orelse[0], ast.Raise) and _u(g.orelse[0].exc).startswith("ValueError("),
+          f"{name}: the refused branch raises ValueError")
+    guard = expr(g.test, {"position": ("position", "int"), "self.max_acl_rules": ("a0.maxRules", "int")})[0]
+    body = _slot_stmts(list(g.body), 0, 2, _rule_defaults(tree))
+    return (f"/-- `AccessControlList.{name}`, translated statement by statement -/\n"
+            f"def {lean_name} (a0 : AclObj) {params}(position : Int) : AclObj × EditOut :=\n"
+            f"  if {guard} then\n{body}\n  else (a0, EditOut.valueError)  -- raise ValueError\n")
+
+
+def _edit_methods_lean(acl: ast.ClassDef, tree) -> str:
+    return ("""/-- Python list indexing `xs[i]`: 0 ≤ i < len ↦ i; −len ≤ i < 0 ↦ len + i; otherwise IndexError -/
+def pyIndex (len : Nat) (i : Int) : Option Nat :=
+  if 0 ≤ i then (if i.toNat < len then some i.toNat else none)
+  else (if -(len : Int) ≤ i then some (len - (-i).toNat) else none)
+"""
+            + _edit_method_lean(acl, tree, "add_rule", "addRule", "(r : Rule) ")
+            + _edit_method_lean(acl, tree, "remove_rule", "removeRule", ""))
+
+
 def _actions_lean() -> str:
     tree = parse(ACTIONS)
     out = []
@@ -386,7 +478,8 @@ def _actions_lean() -> str:
 def _from_config_blocks() -> str:
     """Every `<obj>.<list>.add_rule(kw=…)` call inside a `for r_num, r_cfg in <mapping>.items()` loop of the two loaders."""
     blocks = []
-    for rel, cls, fn_name in ((ROUTER, "Router", "from_config"), (FIREWALL, "Firewall", "from_config")):
+    for rel, cls, fn_name in ((ROUTER, "Router", "from_config"), (FIREWALL, "Firewall", "from_config"),
+                              ("simulator/network/hardware/nodes/network/wireless_router.py", "WirelessRouter", "from_config")):
         fn = find_method(class_def(parse(rel), cls), fn_name)
         for loop in [n for n in ast.walk(fn) if isinstance(n, ast.For)]:
             calls = [n for n in ast.walk(loop) if isinstance(n, ast.Call) and isinstance(n.func, ast.Attribute) and n.func.attr == "add_rule"]
@@ -417,7 +510,7 @@ def _from_config_blocks() -> str:
                 _need(s == "r_num", f"loader keyword {k.arg}={s}")
                 kws.append((k.arg, [], "<mapping key>"))
             src = _u(loop.iter)
-            blocks.append((cls, _u(calls[0].func.value), src, kws))
+            blocks.append((cls, _u(calls[0].func.value), src, sorted(kws)))  # keyword order in the call is immaterial
     return ("/-- the loaders' rule loops: (class, list object the rule is added to, mapping iterated, [(parameter, config keys read "
             "— first one wins —, lookup table)]) -/\n"
             "def loaderBlocks : List (String × String × String × List (String × List String × String)) := "
@@ -582,7 +675,8 @@ def frameAccepted (f : Frame) : Bool := !({' || '.join(refusals)})
 def emit_state() -> str:
     acl = class_def(parse(ROUTER), "AccessControlList")
     return ("import PrimaiteModel.Model.AclObj\nimport PrimaiteModel.Gen.AclMatch\nnamespace Primaite.Gen.AclState\nopen Primaite.Acl\n"
-            + _is_permitted_lean(acl) + _ctor_lean(acl) + _readers_lean(acl) + _add_rule_plumbing(acl) + _actions_lean()
+            + _is_permitted_lean(acl) + _ctor_lean(acl) + _readers_lean(acl) + _add_rule_plumbing(acl)
+            + _edit_methods_lean(acl, parse(ROUTER)) + _actions_lean()
             + _from_config_blocks() + _device_defaults() + _documented_keys(_fw_list_rows()) + _frame_lean()
             + "end Primaite.Gen.AclState\n")
 
